@@ -305,6 +305,26 @@ def _constants(case, V, st):
         for k, v in expect.items():
             if not abs(ref[k] - v) <= 1e-12 * abs(v):
                 V('constants-expression-value', 'parameter file with numbers first: %s = %r, expected %r' % (k, ref[k], v))
+        # a second parameter file of the same process with the SAME expression texts and OTHER numbers (two runs compared in one
+        # interpreter, a restart next to a fresh set-up), in two key orders, and then the first file again
+        base2 = dict(base)
+        base2.update({'R0': 37.0, 'vMax': 4.0, 'kTi': 0.45, 'deltaRTi': 0.8, 'CTi': 0.9, 'rMin': 1.0, 'rMax': 8.0})
+        expect2 = {'zMax': 37.0 * 2 * math.pi, 'vMin': -4.0, 'kTe': 0.45, 'deltaRTe': 0.8, 'deltaRN0': 1.6, 'deltaR': 4.0 * 1.6 / 0.8, 'CTe': 0.9, 'rp': 4.5}
+        p2 = os.path.join(d, 'second.json')
+        for keyorder in (sorted(base2, key=lambda k: isinstance(base2[k], str)), sorted(base2, key=lambda k: not isinstance(base2[k], str))):
+            with open(p2, 'w') as f:
+                json.dump({k: base2[k] for k in keyorder}, f)
+            st['evals'] += 2
+            st['nontrivial'] += 2
+            try:
+                r2 = _attrs(get_constants(p2))
+                bad = [k for k, v in expect2.items() if not abs(r2[k] - v) <= 1e-12 * abs(v)]
+                if bad:
+                    V('constants-second-file-of-the-process', 'second parameter file (same expressions, other numbers): %r wrong, e.g. %s = %r, expected %r' % (bad, bad[0], r2[bad[0]], expect2[bad[0]]))
+                if _attrs(get_constants(p0)) != ref:
+                    V('constants-second-file-of-the-process', 'the first parameter file read again after another one gives other constants')
+            except Exception as e:  # noqa
+                V('constants-second-file-exception:' + type(e).__name__, '%s: %s' % (type(e).__name__, e))
         deps = ['zMax', 'vMin', 'kTe', 'deltaRTe', 'deltaRN0', 'deltaR', 'CTe', 'R0', 'vMax', 'kTi', 'deltaRTi', 'CTi']
         chain = ['deltaR', 'deltaRN0', 'deltaRTe', 'deltaRTi', 'CTe', 'CTi', 'zMax', 'R0'][:case['nkeys']]
         rest = [k for k in base if k not in chain]
